@@ -217,7 +217,7 @@ func c03InitPools() {
 	add("any", &c03Plain{2, "y"})
 	add("any", map[string]int{"k": 1})
 	add("any", []any{1, "x"})
-	add("any", nan)
+	add("any", struct{ F float64 }{nan})
 	add("any", func() {})
 	add("any", struct{}{})
 	add("any", [2]int8{1, 2})
